@@ -1,5 +1,6 @@
 """C19 - string terminals match their literal text; KEYWORD adds whole-word matching."""
 
+import os
 import re
 
 import parglare
@@ -34,6 +35,7 @@ def plan(tier):
 
 def required(tier):
     return {
+        "keyword.modular_grammars": 30,
         "nontrivial": 3000 if tier == "quick" else 30000,
         "literal.grammars": 300,
         "literal.inline_constructed": 100,
@@ -246,10 +248,35 @@ def keyword_case(ctx, mon):
     lines.append("id: /%s/;" % idre)
     lines.append("KEYWORD: /%s/;" % kwre)
     text = "\n".join(lines)
+    # a quarter of the grammars keep the keyword-like strings in an imported file: KEYWORD
+    # (declared in the root) applies to them all the same
+    modular = rng.random() < 0.25
+    pre = "m." if modular else ""
     try:
-        pg = pgx.grammar(text, ignore_case=ignore_case)
-        glr = pgx.glr(pg)
-        lr = pgx.lr(pgx.grammar(text, ignore_case=ignore_case))
+        if modular:
+            import shutil
+            import tempfile
+
+            root = ["import 'm.pg' as m;", "S: %s;" % " | ".join(" ".join((pre + x) if x in names else x for x in r) for _, r in g.by["S"]), "terminals", "id: /%s/;" % idre, "KEYWORD: /%s/;" % kwre]
+            mod = ["X: %s;" % " | ".join(names), "terminals"] + ["%s: %s;" % (n, write(tdefs[n].text)) for n in names]
+            text = "\n".join(root) + "\n--- m.pg ---\n" + "\n".join(mod)
+            d = tempfile.mkdtemp(prefix="pgv-c19-")
+            try:
+                with open(os.path.join(d, "root.pg"), "w") as fh:
+                    fh.write("\n".join(root) + "\n")
+                with open(os.path.join(d, "m.pg"), "w") as fh:
+                    fh.write("\n".join(mod) + "\n")
+                with pgx.quiet():
+                    pg = parglare.Grammar.from_file(os.path.join(d, "root.pg"), ignore_case=ignore_case)
+                    glr = parglare.GLRParser(pg)
+                lr = None
+            finally:
+                shutil.rmtree(d, ignore_errors=True)
+            ctx.count("keyword.modular_grammars")
+        else:
+            pg = pgx.grammar(text, ignore_case=ignore_case)
+            glr = pgx.glr(pg)
+            lr = pgx.lr(pgx.grammar(text, ignore_case=ignore_case))
     except parglare.GrammarError as e:
         if "match the same string" in str(e):
             return
@@ -264,7 +291,7 @@ def keyword_case(ctx, mon):
         ctx.count("keyword.ignore_case")
     # implementation agrees on which terminals are keywords
     for n in names:
-        t = pg.get_terminal(n)
+        t = pg.get_terminal(pre + n)
         if bool(t.keyword) != (tdefs[n].kind == "kw"):
             ctx.case((text, "kwflag", n), True)
             ctx.violation("keyword-classification", {"grammar": text, "terminal": n}, "terminal %s text %r: keyword=%s, the KEYWORD regex %s it fully" % (n, tdefs[n].text, t.keyword, "matches" if tdefs[n].kind == "kw" else "does not match"))
@@ -277,7 +304,7 @@ def keyword_case(ctx, mon):
         if ignore_case and rng.random() < 0.5:
             w = "".join(c.upper() if rng.random() < 0.4 else c for c in w)
         inputs.add(w)
-    case0 = {"grammar": text, "tdefs": {k: v.to_json() for k, v in tdefs.items()}, "ignore_case": ignore_case, "g": g.to_json(), "kind": "keyword"}
+    case0 = {"grammar": text, "tdefs": {k: v.to_json() for k, v in tdefs.items()}, "ignore_case": ignore_case, "g": g.to_json(), "kind": "keyword-modular" if modular else "keyword"}
     for w in sorted(inputs):
         chart = cfg.Chart(g, w, ignore_case=ignore_case)
         want = chart.is_sentence()
@@ -290,6 +317,9 @@ def keyword_case(ctx, mon):
             continue
         if (a.kind == "forest") != want:
             ctx.violation("keyword-match-differs", case, "GLR %s %r, the reference (literal + whole-word rule) %s it" % ("accepts" if a.kind == "forest" else "rejects", w, "accepts" if want else "rejects"))
+            continue
+        if modular:
+            # (terminal names are qualified there: language and classification only)
             continue
         if want and not a.loop and chart.count() != cfg.INF and a.len != chart.count() and a.len <= 50:
             pk = pgx.prod_keys(glr.grammar)
@@ -324,6 +354,9 @@ def replay(case, ctx):
         return
     g = cfg.G.from_json(case["g"])
     w = case["input"]
+    if case.get("kind") == "keyword-modular":
+        # two grammar files: the case is self-describing (texts of both files are in it)
+        return
     if case.get("kind") == "literal":
         want = cfg.Chart(g, w, skip=cfg.skip_none).is_sentence()
         outs = {}
